@@ -7183,3 +7183,84 @@ def data_dictionary(m, pdim):
         return out if isinstance(out, dict) else None
     except (Violation, Unsupported):
         return None
+
+
+# ====================================================================================== C13: sweeping on real shapes, up to the constructed result
+def sw3(m, run, rule='SW3.sweep-on-real-shapes'):
+    """SW3: sweeping.sweep_vector interpreted on real B-spline and rational curves and (non-square) surfaces with exact symbolic points and
+    weights, the construction functions and the result's classes interpreted too: a curve gives a surface whose u direction has degree 1
+    and two rows - row 0 the input's points, row 1 the input's points moved by the vector, each with the weight of its point - and whose v
+    direction has the degree and knots of the curve; a surface gives a volume whose w direction has two layers built the same way; the
+    input is left as it was"""
+    from .skel import Sym
+    from .poly import Poly
+    fi = m.func('sweeping.sweep_vector')
+    for cname, degs, sizes in (('Curve', (2,), (4,)), ('Surface', (2, 1), (3, 4))):
+        pdim = len(degs)
+        total = 1
+        for s_ in sizes:
+            total *= s_
+        for mod in ('BSpline', 'NURBS'):
+            key = 'sweeping.sweep_vector :: %s.%s' % (mod, cname)
+            ab = dict(STD_ABSTRACTED)
+            ab[('knotvector', 'normalize')] = Py(lambda sk, node, kv, *a, **k: [Ord(x.rank) for x in kv], 'knotvector.normalize')
+            ab[('knotvector', 'generate')] = Py(lambda sk, node, degree, n, *a, **k: [Ord(900)] * (degree + 1) + [Ord(900 + i) for i in range(1, n - degree)] + [Ord(999)] * (degree + 1), 'knotvector.generate')
+            sk = SK(m, ab)
+            sk.exact = True
+            sk.construct = True
+            sk.follow_deepcopy = True
+            why = None
+
+            def getp(obj, nm):
+                return sk.call(m.lookup(obj._cls, nm, 'getters'), [obj], {})
+            try:
+                src = sk.apply(('class', (mod, cname)), [], {}, None)
+                sfx = [''] if pdim == 1 else ['_' + 'uvw'[d] for d in range(pdim)]
+                for d in range(pdim):
+                    sk.call(m.lookup(src._cls, 'degree' + sfx[d], 'setters'), [src, degs[d]], {})
+                P = [[Poly.atom('P%d_%d' % (i, c)) for c in range(3)] for i in range(total)]
+                W = [Poly.atom('W%d' % i) for i in range(total)] if mod == 'NURBS' else None
+                rows = [[Sym(x) for x in r] for r in P] if W is None else [[Sym(x * W[i]) for x in r] + [Sym(W[i])] for i, r in enumerate(P)]
+                sk.call(m.lookup(src._cls, 'set_ctrlpts', 'methods'), [src, rows] + (list(sizes) if pdim > 1 else []), {})
+                ranks = [[10 * (d + 1) + r for r in [0] * (p + 1) + list(range(1, n - p)) + [n - p] * (p + 1)] for d, (p, n) in enumerate(zip(degs, sizes))]
+                for d in range(pdim):
+                    sk.call(m.lookup(src._cls, 'knotvector' + sfx[d], 'setters'), [src, [Ord(r) for r in ranks[d]]], {})
+                before = [list(r) for r in src._a['_control_points']]
+                vec = [Poly.atom('v%d' % c) for c in range(3)]
+                out = sk.call(fi, [src, [Sym(x) for x in vec]], {})
+                rsz = ([2] + list(sizes)) if pdim == 1 else (list(sizes) + [2])
+                rdeg = ([1] + list(degs)) if pdim == 1 else (list(degs) + [1])
+                if not isinstance(out, Bag) or not isinstance(out._cls, tuple) or out._cls != (mod, ('Surface', 'Volume')[pdim - 1]):
+                    why = 'the result is not a %s.%s' % (mod, ('Surface', 'Volume')[pdim - 1])
+                elif list(out._a.get('_control_points_size', [])) != rsz or list(out._a.get('_degree', [])) != rdeg:
+                    why = 'the result has sizes %s and degrees %s, expected %s and %s' % (list(out._a.get('_control_points_size', [])), list(out._a.get('_degree', [])), rsz, rdeg)
+                else:
+                    kvs = [[getattr(k, 'rank', None) for k in kv] for kv in out._a['_knot_vector']]
+                    own = kvs[1:] if pdim == 1 else kvs[:2]
+                    if own != ranks:
+                        why = 'the directions of the input do not keep their knot vectors in the result'
+                    cp, ww = getp(out, 'ctrlpts'), (getp(out, 'weights') if W is not None else None)
+                    for j in (0, 1):
+                        for i in range(total if why is None else 0):
+                            flat = (i + total * j) if pdim == 2 else (i + sizes[0] * j)      # volume: layer j after the surface; surface: row j of v-fastest rows
+                            want = [P[i][c] + (vec[c] if j else Poly()) for c in range(3)]
+                            for c in range(3):
+                                s_ = _as_sym(cp[flat][c]) if len(cp) > flat and len(cp[flat]) > c else None
+                                if s_ is None or not s_.same(Sym(want[c])):
+                                    why = 'section %d, point %d of the result has %r in coordinate %d; expected the input point%s, %r' % (j, i, cp[flat][c] if len(cp) > flat else None, c, ' moved by the vector' if j else '', want[c])
+                                    break
+                            if why is None and W is not None:
+                                s_ = _as_sym(ww[flat])
+                                if s_ is None or not s_.same(Sym(W[i])):
+                                    why = 'section %d, point %d of the result has the weight %r, the input point has %r' % (j, i, ww[flat], W[i])
+                            if why:
+                                break
+                        if why:
+                            break
+                    if why is None and [list(r) for r in src._a['_control_points']] != before:
+                        why = 'the input is modified'
+            except Violation as v:
+                why = '%s %s' % (v.msg, v.where())
+            except Unsupported as ex:
+                raise AnalysisError('%s: interpreter met an unsupported construct: %s' % (key, ex))
+            run.ob(rule, key, why is None, 'two sections: the input and its translate, weights kept; degree 1 along the sweep; input untouched' if why is None else why, 'geomdl/sweeping.py:%d in %s' % (fi.node.lineno, fi.key))
